@@ -46,6 +46,7 @@ type Solver struct {
 	TimeNs  int64
 	dead    bool
 	last    string
+	mirror  *Solver // second solver fed the same commands (thorough tier)
 }
 
 var (
@@ -96,6 +97,9 @@ func NewSolver(kind SolverKind, timeoutMs int) (*Solver, error) {
 }
 
 func (s *Solver) send(cmd string) {
+	if s.mirror != nil && !strings.HasPrefix(cmd, "(echo") && !strings.HasPrefix(cmd, "(check-sat") && !strings.HasPrefix(cmd, "(get-value") {
+		s.mirror.send(cmd)
+	}
 	if s.dead {
 		return
 	}
@@ -226,6 +230,14 @@ func (s *Solver) CheckSat() Verdict {
 	return v
 }
 
+// CheckSatMirror asks the mirror solver the same question (same assertion stack).
+func (s *Solver) CheckSatMirror() (Verdict, bool) {
+	if s.mirror == nil || s.mirror.dead {
+		return Unknown, false
+	}
+	return s.mirror.CheckSat(), true
+}
+
 // GetValue evaluates the given SMT expressions in the current model and
 // returns the raw value text per expression.
 func (s *Solver) GetValue(exprs []string) ([]string, bool) {
@@ -253,6 +265,10 @@ func (s *Solver) GetValue(exprs []string) ([]string, bool) {
 }
 
 func (s *Solver) Close() {
+	if s.mirror != nil {
+		s.mirror.Close()
+		s.mirror = nil
+	}
 	if s.cmd != nil && s.cmd.Process != nil {
 		s.send("(exit)")
 		s.in.Close()
